@@ -631,7 +631,7 @@ impl Property for C04 {
     }
 
     fn rule(&self) -> String {
-        "cases: (limits, exhaustive) one parameterised program per encoding limit at limit-1, limit, limit+1 (+2): forward jump distance for if/else/&&/||/while/try/break at 65534..65537 bytes with byte-exact filler, backward loop distance, call/method arguments, parameters (fn and lambda), vec/tuple/map elements and interpolation parts at 254..257, locals at 254..257, 250..257 plain variables followed by a catch variable, a loop variable, a local class, a local function or nested-block variables (each instance is rejected or runs correctly), captured variables at 255..258, constants per chunk at 65535..65537 (numbers) and with the crossing constant a string, a global's name, a lambda, a named function or a class (65524..65536 numbers before it; each instance is rejected or runs correctly), interpolation depth 7..9; operand sweep: functions whose code ends in an operand byte of every value 0..255 as local slot, argument count, element count and captured-variable index; (scripts) every script of the repository's corpus that compiles; (programs*) generated programs of the mixed/class/scope profiles, with and without recorded-defect shapes; (far_code) generated programs of the exception, scope and mixed profiles placed behind 64-190 KiB of no-op statements in the same chunk, so that every code offset of the program exceeds 16 bits: verified, and run next to the unpadded program, whose printed values and outcome it must reproduce. Oracle: the bytecode verifier (abstract interpretation over every function: instruction boundaries, operand indices, one operand-stack height and one static handler stack per reachable pc, no pop below the frame base, final Return, line table length), the verifier's heights cross-checked against the interpreter's (chunk, pc, height) trace of the same run, no panic while running, and for the limit family the output or rejection known by construction. Non-trivial: a verified function with >=1 branch and height above its arity, or any limit instance; distinct by program text.".into()
+        "cases: (limits, exhaustive) one parameterised program per encoding limit at limit-1, limit, limit+1 (+2): forward jump distance for if/else/&&/||/while/try/break at 65534..65537 bytes with byte-exact filler, backward loop distance, call/method arguments, parameters (fn and lambda), vec/tuple/map elements and interpolation parts at 254..257, locals at 254..257, 250..257 plain variables followed by a catch variable, a loop variable, a local class, a local function or nested-block variables (each instance is rejected or runs correctly), captured variables at 255..258, constants per chunk at 65535..65537 (numbers) and with the crossing constant a string, a global's name, a lambda, a named function or a class (65524..65536 numbers before it; each instance is rejected or runs correctly), interpolation depth 7..9; operand sweep: functions whose code ends in an operand byte of every value 0..255 as local slot, argument count, element count and captured-variable index; (scripts) every script of the repository's corpus that compiles; (programs*) generated programs of the mixed/class/scope profiles, with and without recorded-defect shapes; (far_code) generated programs of the exception, scope and mixed profiles placed behind 64-190 KiB of no-op statements in the same chunk, so that every code offset of the program exceeds 16 bits: verified, and run next to the unpadded program, whose printed values and outcome it must reproduce. Oracle: the bytecode verifier (abstract interpretation over every function: instruction boundaries, operand indices, one operand-stack height and one static handler stack per reachable pc, no pop below the frame base, final Return, line table length), the verifier's heights cross-checked against the interpreter's (chunk, pc, height) trace of the same run, no panic while running, for the limit family the output or rejection known by construction, and for the generated programs without recorded-defect shapes the printed values and outcome of the reference interpreter (a name resolved to another variable than the source means is well-formed code). Non-trivial: a verified function with >=1 branch and height above its arity, or any limit instance; distinct by program text.".into()
     }
 
     fn assumptions(&self) -> Vec<String> {
@@ -753,13 +753,39 @@ impl Property for C04 {
                 detail: format!("at {} instruction boundaries of the run an open upvalue pointed at or above the top of the value stack: a path discards a captured variable's slot without closing it, so the closure names a slot that is no longer that variable\n{}", c.dangling, if src.len() < 4000 { src.clone() } else { name.clone() }),
             };
         }
+        // generated programs (recorded-defect shapes off): what the code does is also what the source
+        // says - the printed values, which are reads of the variables the source names, agree with
+        // the reference interpreter's. A compiler that resolves a name to another variable, slot or
+        // constant than the source means produces well-formed code the verifier has nothing against.
+        if matches!(family.as_str(), "programs" | "programs_classes" | "programs_scopes") && name != "norun" {
+            let prof = match family.as_str() {
+                "programs_classes" => profiles::c07(),
+                "programs_scopes" => profiles::c06(),
+                _ => profiles::mixed(),
+            };
+            let (p, _) = gen::program(ctx.bytes, prof);
+            let d = crate::diff::run_diff(&p, &[], &crate::diff::DiffCfg::default(), &crate::prelude::RefCfg::default());
+            if crate::props::diffprop::trigger_suffix(&d.events).is_empty() {
+                match &d.verdict {
+                    crate::diff::DiffVerdict::Mismatch(m) => {
+                        return Verdict::Fail {
+                            sig: "accepted-code-differs-from-source:ref-mismatch".into(),
+                            detail: format!("{}
+{}", m, if src.len() < 4000 { src.clone() } else { name.clone() }),
+                        };
+                    }
+                    crate::diff::DiffVerdict::Agree => ctx.label("agrees_with_reference"),
+                    _ => {}
+                }
+            }
+        }
         let nontrivial = expect.is_some()
             || rep.functions.iter().any(|f| f.branches >= 1 && f.max_height > 1);
         Verdict::Pass { nontrivial, hash: fnv64(src.as_bytes()) }
     }
 
     fn floors(&self, _tier: Tier) -> Vec<(&'static str, u64)> {
-        vec![("functions_verified", 20_000), ("trace_pcs_checked", 1_000_000), ("limit_rejected", 20), ("limit_accepted", 30), ("far_code", 300), ("far_code_try", 100)]
+        vec![("functions_verified", 20_000), ("trace_pcs_checked", 1_000_000), ("limit_rejected", 20), ("limit_accepted", 30), ("far_code", 300), ("far_code_try", 100), ("agrees_with_reference", 10_000)]
     }
 
     fn extra_coverage(&self, labels: &std::collections::BTreeMap<String, u64>) -> Vec<(String, serde_json::Value)> {
